@@ -190,7 +190,7 @@ def prime_opcode_tracing():
 # ---------------------------------------------------------------------------
 # programs
 
-_k = st.integers(0, 3)
+_k = st.sampled_from([0, 0, 1, 1, 2, 3])       # few keys: the threads meet on the same key often
 _v = st.integers(0, 3)
 _op = st.one_of(
     st.tuples(st.just('set'), _k, _v), st.tuples(st.just('set'), _k, _v), st.tuples(st.just('set'), _k, _v),
@@ -205,9 +205,9 @@ _op = st.one_of(
 def strat(tier):
     return st.fixed_dictionaries({
         'sub': st.just('sched'),
-        'cls': st.sampled_from(['LRI', 'LRU', 'LRU']),
+        'cls': st.sampled_from(['LRI', 'LRU']),
         'max_size': st.integers(1, 3),
-        'on_miss': st.sampled_from(['none', 'none', 'tuple']),
+        'on_miss': st.sampled_from(['none', 'tuple']),
         'init': st.lists(st.tuples(_k, _v).map(list), max_size=3),
         'programs': st.lists(st.lists(_op, min_size=1, max_size=3), min_size=2, max_size=3),
         'multi': st.lists(st.lists(st.tuples(st.integers(1, 400), st.integers(0, 2)).map(list), min_size=2, max_size=3), max_size=12 if tier == 'quick' else 40),
